@@ -28,7 +28,8 @@ RULE = ("seeded logical streams of 1-6 blocks (id incl. empty reset, event, 0-3 
         "colon-less fields, UTF-8 values, extra blank lines), always ending in a blank line; terminators uniform CRLF / LF / CR "
         "or chosen per line; delivered close-delimited (whole, every 2-piece split, 1-byte reads, all CR|LF cuts, random cuts) "
         "and chunked under several chunkings (incl. one byte per chunk and boundaries at every CR|LF) each whole, bytewise "
-        "and randomly cut. Non-trivial = the model dispatches >= 1 event and the stream has >= 2 field kinds; distinct = by "
+        "and randomly cut; plus a fixed schedule of 4 (quick) / 8 (thorough) BIG streams of 72-200 KiB of short events delivered "
+        "in one read, in reads and chunks larger than 64 KiB, as one chunk, and in small reads/chunks. Non-trivial = the model dispatches >= 1 event and the stream has >= 2 field kinds; distinct = by "
         "(terminator sequence class, field-kind sequence, delivery kinds).")
 ASSUMPTIONS = [
     "streams are valid UTF-8 without BOM and without NUL in ids; they end with a blank line",
@@ -44,7 +45,8 @@ NSHARDS = {"quick": 16, "thorough": 16}
 BUDGET_S = {"quick": 25, "thorough": 420}
 REQUIRE = {"deliveries": 20000, "deliveries_plain": 8000, "deliveries_chunked": 2000, "events_expected": 300,
            "streams_uniform_crlf": 20, "streams_uniform_lf": 20, "streams_uniform_cr": 20, "streams_mixed": 40,
-           "deliveries_with_read_boundary_inside_crlf": 500, "model_crosschecks": 200}
+           "deliveries_with_read_boundary_inside_crlf": 500, "model_crosschecks": 200,
+           "big_streams": 4, "deliveries_big_buffer": 32, "delivery:big-plain-one-read": 4, "delivery:big-chunked-one-chunk": 4}
 EXHAUSTIVE = {"quick": "for every generated stream: all partitions of the close-delimited response into two reads",
               "thorough": "for every generated stream: all 2-read partitions of the close-delimited response and of its first chunked form"}
 
@@ -56,9 +58,9 @@ RETRY_OK = ["0", "1000", "250", "007", "99999", "1"]
 RETRY_BAD = ["+5", "-5", "1_0", " 7", "1.5", "abc", "５", "7 "]
 
 
-def gen_stream(rng, bad_retry=False):
+def gen_stream(rng, bad_retry=False, nblocks=None, style=None, avoid_empty=False):
     lines = []
-    for _ in range(rng.randint(1, 6)):
+    for _ in range(rng.randint(1, 6) if nblocks is None else nblocks):
         fields = []
         if rng.random() < 0.3:
             fields.append(":" + rng.choice(["", " keepalive", "comment: x", ":"]))
@@ -69,8 +71,10 @@ def gen_stream(rng, bad_retry=False):
             fields.append("event" + rng.choice([":", ": "]) + rng.choice(NAMES))
         if rng.random() < 0.25:
             fields.append("retry" + rng.choice([":", ": "]) + rng.choice(RETRY_BAD if bad_retry and rng.random() < 0.7 else RETRY_OK))
-        for _ in range(rng.choice([0, 1, 1, 1, 2, 3])):
-            v = rng.choice(TEXTS)
+        vals = [rng.choice(TEXTS) for _ in range(rng.choice([0, 1, 1, 1, 2, 3]))]
+        if avoid_empty and vals == [""]:
+            vals = ["x"]
+        for v in vals:
             fields.append("data" if (v == "" and rng.random() < 0.3) else "data" + rng.choice([":", ": "]) + v)
         if rng.random() < 0.15:
             fields.append(rng.choice(["foo: bar", "Data: upper", "datum", " data: x", "id2:3"]))
@@ -78,7 +82,7 @@ def gen_stream(rng, bad_retry=False):
         lines += fields + [""]
         if rng.random() < 0.15:
             lines.append("")
-    style = rng.choice(["crlf", "lf", "cr", "mixed", "mixed"])
+    style = style or rng.choice(["crlf", "lf", "cr", "mixed", "mixed"])
     out = []
     for t in lines:
         term = style if style != "mixed" else rng.choice(["crlf", "lf", "cr"])
@@ -106,7 +110,26 @@ def build(tlines, chunking, version="1.1"):
     return h + G.chunk_encode(chunks, ["0", []], []), len(h)
 
 
+# fixed (seed independent) schedule of BIG streams: many short events, more than MAX_LINE_SIZE (64 KiB) buffered at once
+# (hio's line search is quadratic in the buffered size for LF / CR streams, so the largest ones are CRLF or mixed)
+BIG = [(72, "lf"), (200, "crlf"), (120, "mixed"), (80, "cr"), (180, "mixed"), (90, "crlf"), (100, "cr"), (150, "lf")]
+
+
+def big_stream(spec):
+    rng = random.Random(f"C15:big:{spec['k']}")
+    tl = []
+    while len(sse.encode(tl)) < spec["kib"] * 1024:
+        more = gen_stream(rng, False, nblocks=400, style=spec["style"], avoid_empty=True)
+        if tl and tl[-1][1] == "cr" and more[0] == ["", "lf"]:
+            more[0][1] = "crlf"
+        tl += more
+    return tl
+
+
 def cases(tier, seed, shard, nshards):
+    for k, (kib, style) in enumerate(BIG if tier != "quick" else BIG[:4]):
+        if k % nshards == shard:
+            yield {"kind": "big", "k": k, "kib": kib, "style": style}
     rng = random.Random(f"{seed}:C15:{shard}")
     ncases = (640 if tier == "quick" else 16000) // nshards
     for i in range(ncases):
@@ -133,7 +156,64 @@ def norm(events):
     return [[e.get("id") or "", e.get("name"), e.get("data")] for e in events]
 
 
+def run_big(case, ctx):
+    """> 64 KiB of short events buffered at once: one read, one chunk, reads/chunks larger than 64 KiB"""
+    tl = big_stream(case)
+    payload = sse.encode(tl)
+    exp = sse.interpret_lines([t for t, _ in tl])
+    if sse.ambiguous(tl) or sse.interpret_bytes(payload) != exp:
+        raise AssertionError("big stream: generator/model self-check failed")
+    ctx.count("model_crosschecks")
+    want = {"events": norm(exp["events"]), "leid": exp["leid"] or "", "retry": exp["retry"] if exp["retry"] is not None else 100}
+    n = len(payload)
+    ctx.count("big_streams")
+    ctx.count("big_stream_bytes", n)
+    ctx.count("events_expected", len(exp["events"]))
+    big = 65536 + 1000
+    deliveries = []
+    plain, off = build(tl, None, "1.1")
+    deliveries.append(("big-plain-one-read", plain, [], None))
+    deliveries.append(("big-plain-reads-over-64KiB", plain, list(range(off + big, len(plain), big)), None))
+    deliveries.append(("big-plain-head-then-all", plain, [off], None))
+    deliveries.append(("big-plain-4KiB-reads", plain, list(range(4096, len(plain), 4096)), None))
+    one, off1 = build(tl, [])
+    deliveries.append(("big-chunked-one-chunk", one, [], []))
+    ch = list(range(big, n, big))
+    many, off2 = build(tl, ch)
+    deliveries.append(("big-chunked-chunks-over-64KiB", many, [], ch))
+    deliveries.append(("big-chunked-chunks-over-64KiB-8KiB-reads", many, list(range(8192, len(many), 8192)), ch))
+    small = list(range(3000, n, 3000))
+    sm, off3 = build(tl, small)
+    deliveries.append(("big-chunked-3KB-chunks-one-read", sm, [], small))
+    bad = set()
+    for family, data, cuts, chunking in deliveries:
+        res = H.feed("response", G.pieces(data, cuts), chunking is None, "GET")
+        ctx.count("deliveries")
+        ctx.count("deliveries_big_buffer")
+        ctx.count("deliveries_plain" if chunking is None else "deliveries_chunked")
+        ctx.count("delivery:" + family)
+        got = {"events": norm(res["events"]), "leid": res["leid"] or "", "retry": res["retry"]}
+        ctx.count("events_observed", len(got["events"]))
+        what = "escape" if res["raised"] else next((k for k in ("events", "leid", "retry") if got[k] != want[k]), None)
+        if what is None and not res["msgs"] and not res["open"]:
+            what = "response-not-parsed"
+        if what and what not in bad:
+            bad.add(what)
+            errs = [m.get("error") for m in res["msgs"] if m.get("errored")]
+            ctx.violation(f"sse:big-buffer:{what}",
+                          f"{family}: {n} bytes of short events ({len(want['events'])} events): got {len(got['events'])} events, "
+                          f"leid={got['leid']!r} retry={got['retry']} raised={res['raised']} errored={errs}; expected leid="
+                          f"{want['leid']!r} retry={want['retry']}; first differing event index="
+                          f"{next((i for i, (a, b) in enumerate(zip(got['events'], want['events'])) if a != b), min(len(got['events']), len(want['events'])))}")
+    ctx.nontrivial(["big", case["k"], case["kib"], case["style"]])
+    ctx.seen("stream_shapes", ["big", case["k"]])
+    if not bad:
+        ctx.sample({"big_stream_bytes": n, "style": case["style"], "events": len(want["events"]), "deliveries": [d[0] for d in deliveries]})
+
+
 def run_case(case, ctx):
+    if case.get("kind") == "big":
+        return run_big(case, ctx)
     tl = case["lines"]
     logical = [t for t, _ in tl]
     payload = sse.encode(tl)
